@@ -155,6 +155,22 @@ static bool render(const std::vector<std::string>& a, size_t i, bool v11, std::s
     std::vector<std::string> open;
     // always with a declaration: a reused scanner keeps the XML version of the previous document otherwise
     out += v11 ? "<?xml version=\"1.1\"?>" : "<?xml version=\"1.0\"?>";
+    // optional internal DTD subset with attribute defaults: DTD <n> {<element> <apfx> <alocal> <D|F> <value>}*n
+    if (i < a.size() && a[i] == "DTD") {
+        if (i + 1 >= a.size()) return false;
+        int n = atoi(a[i + 1].c_str());
+        i += 2;
+        if (i + 5 * (size_t)n >= a.size()) return false;
+        std::string decls;
+        for (int k = 0; k < n; k++, i += 5) {
+            std::string an = txt(a[i + 1]).empty() ? a[i + 2] : a[i + 1] + ":" + a[i + 2];
+            decls += "<!ATTLIST " + a[i] + " " + an + " CDATA " + (a[i + 3] == "F" ? "#FIXED " : "") + "\"" + txt(a[i + 4]) + "\">";
+        }
+        // the document element is the first start tag
+        if (a[i] != "S" || i + 2 >= a.size()) return false;
+        std::string root = txt(a[i + 1]).empty() ? a[i + 2] : a[i + 1] + ":" + a[i + 2];
+        out += "<!DOCTYPE " + root + " [" + decls + "]>";
+    }
     while (i < a.size()) {
         const std::string& t = a[i++];
         if (t == "T") out += "t";
